@@ -367,6 +367,28 @@ def normalize_tree(tree: ast.AST) -> ast.AST:
                     return ast.copy_location(new, node)
             return node
     tree = PrefixTest().visit(tree)
+
+    # `for x in (A if c else B): S` is `if c: for x in A: S / else: for x in B: S`, and a loop over a one-element display
+    # `for x in (e,): S` (no break / continue / else) is `x = e; S`
+    import copy as _copy
+
+    class LoopCases(ast.NodeTransformer):
+        def visit_For(self, node):
+            self.generic_visit(node)
+            if isinstance(node.iter, ast.IfExp) and not node.orelse:
+                a = _copy.deepcopy(node)
+                b = _copy.deepcopy(node)
+                a.iter, b.iter = node.iter.body, node.iter.orelse
+                new = ast.If(test=node.iter.test, body=[self.visit_For(a) if True else a], orelse=[self.visit_For(b) if True else b])
+                new.body = [x for y in new.body for x in (y if isinstance(y, list) else [y])]
+                new.orelse = [x for y in new.orelse for x in (y if isinstance(y, list) else [y])]
+                return ast.copy_location(new, node)
+            if isinstance(node.iter, (ast.Tuple, ast.List)) and len(node.iter.elts) == 1 and not isinstance(node.iter.elts[0], ast.Starred) and not node.orelse \
+                    and isinstance(node.target, ast.Name) and not any(isinstance(x, (ast.Break, ast.Continue)) for b_ in node.body for x in ast.walk(b_)):
+                asg = ast.copy_location(ast.Assign(targets=[ast.Name(id=node.target.id, ctx=ast.Store())], value=node.iter.elts[0], lineno=node.lineno), node)
+                return [asg] + node.body
+            return node
+    tree = LoopCases().visit(tree)
     if os.environ.get("SA_COPYPROP") == "1":  # experimental, off: too many rules are written against the temporaries of the pinned source
         _copy_propagate(tree)
     ast.fix_missing_locations(tree)
